@@ -11,4 +11,4 @@ module D = Driver.Make (struct
   let case_pos = function M.XI q -> `I q | M.XO q -> `O q | M.XH -> `H
   let case_z = function M.Z0 -> `Z0 | M.Zpos p -> `Pos p | M.Zneg p -> `Neg p
 end)
-let () = D.main [ ("C08", M.run_C08); ("C09", M.run_C09); ("C10", M.run_C10); ("C11", M.run_C11) ]
+let () = D.main [ ("C08", M.run_C08); ("C09", M.run_C09); ("C10", M.run_C10); ("C11", M.run_C11); ("C37", M.run_C37) ]
